@@ -128,6 +128,8 @@ Ops ==
   \cup [k : {"drop", "markstale", "dropstale", "markllgr", "dropllgr"}, peer : Peers]
   \cup [k : {"nhflip"}, nh : NextHops, up : BOOLEAN]
   \cup [k : {"startdef", "enddef"}]
+  \* soft reset IN of a peer under an import policy that sets the next hop to `to` ("keep": a policy that does not touch it)
+  \cup [k : {"softreset"}, peer : Peers, to : NextHops \cup {"keep"}]
 
 Enabled(st, op) ==
   /\ op.k \in OpKinds
@@ -137,6 +139,8 @@ Enabled(st, op) ==
          \* selection deferral starts only on an empty table (it is armed at start-up after
          \* a restart, before any session exists); C06's "held back" reading, see DESIGN 5
          [] op.k = "startdef" -> \A p \in Prefix : st.ent[p] = {}
+         \* a soft reset is asked of a peer whose session is up: none of its paths is stale
+         [] op.k = "softreset" -> \A x \in SessOf(op.peer) : ~st.stale[x] /\ ~st.llgr[x]
          [] OTHER -> TRUE)
 
 FreeId(st) == CHOOSE i \in 1..(Cardinality(Prefix) + 1) :
@@ -242,6 +246,12 @@ DoDropLlgr(st, q) == LET G(p, e) == st.llgr[e.sess] IN Purge(st, q, G)
 
 DoNhFlip(st, nh, up) == [st EXCEPT !.nhbad = IF up THEN @ \ {nh} ELSE @ \cup {nh}]
 
+\* every path of the peer goes through the import policy again; a policy that sets the next hop replaces it (eligibility
+\* then follows the reachability of the NEW next hop), everything else about the path stays.  The policy rejects what it
+\* rejected before and rejects first: a rejected path is not rewritten.
+DoSoftReset(st, q, to) ==
+  [st EXCEPT !.ent = [p \in Prefix |-> {IF PeerOf(e.sess) = q /\ to # "keep" /\ ~e.filt THEN [e EXCEPT !.nh = to] ELSE e : e \in st.ent[p]}]]
+
 Core(st, op) ==
   CASE op.k = "insert"    -> DoInsert(st, op)
     [] op.k = "remove"    -> DoRemove(st, op)
@@ -251,6 +261,7 @@ Core(st, op) ==
     [] op.k = "markllgr"  -> [st |-> DoMarkLlgr(st, op.peer), res |-> "ok"]
     [] op.k = "dropllgr"  -> [st |-> DoDropLlgr(st, op.peer), res |-> "ok"]
     [] op.k = "nhflip"    -> [st |-> DoNhFlip(st, op.nh, op.up), res |-> "ok"]
+    [] op.k = "softreset" -> [st |-> DoSoftReset(st, op.peer, op.to), res |-> "ok"]
     [] op.k = "startdef"  -> [st |-> [st EXCEPT !.defer = TRUE], res |-> "ok"]
     [] op.k = "enddef"    -> [st |-> [st EXCEPT !.defer = FALSE], res |-> "ok"]
 
